@@ -106,3 +106,10 @@ META["C17"] = {
              "precedence); selections, source addresses, deprecation notes, error behaviour and the registry call log are checked."),
     "note": "Membership of a version in an allowed set comes from go-versions; precedence is re-implemented in the harness.",
 }
+META["C13"] = {
+    "technique": "metamorphic PBT over bundle worlds: all Add-order permutations, permuted dependency reports, clone pairs; concurrent Adds under the race detector",
+    "text": ("The complete observable fingerprint of a finished bundle must be invariant under every permutation of the Add calls, under permuted "
+             "dependency discovery order and under concurrent Add calls (race-detector binary, injected yields); content-equal packages share a "
+             "directory and content-different ones never do."),
+    "note": "Interleavings are sampled, not enumerated; permutations are exhaustive up to 4 calls.",
+}
